@@ -43,7 +43,9 @@ AMBIENT_PREFIXES = (
     "web_sys::Performance", "std::path::Path::exists", "std::path::Path::canonicalize",
     "core::fmt::rt::Argument::<'_>::new_pointer",
 )
-AMBIENT_RE = re.compile(r"as std::fmt::Pointer>::fmt")
+# (a randomly keyed hasher is an ambient input too: `RandomState::new()` draws per-process keys, so a hash VALUE
+#  computed with it - not only an iteration order - differs between runs)
+AMBIENT_RE = re.compile(r"as std::fmt::Pointer>::fmt|RandomState::new$|RandomState as std::default::Default>::default|RandomState as std::hash::BuildHasher>::(hash_one|build_hasher)|ahash::RandomState")
 
 
 def method_of(path):
@@ -262,7 +264,7 @@ def run(cx, rep):
                "a hash container is coerced to a formatting trait object (%s): its Debug/Display output follows hash order" % st["rv"]["ty"],
                "%s:%s" % (f.file, st.get("line")))
 
-    rep.rule("C10.2", "no ambient input reachable (clock, env, pid, fs, rng, addresses)")
+    rep.rule("C10.2", "no ambient input reachable (clock, env, pid, fs, rng, addresses, randomly keyed hashers)")
     n_scanned = 0
     for g in sorted(reach):
         f = F.fns[g]
@@ -336,7 +338,7 @@ def run(cx, rep):
             p = call.best or ""
             if any(p.startswith(a) for a in AMBIENT_PREFIXES) or AMBIENT_RE.search(p):
                 amb += 1
-    rep.ob("C10.ctl", "ambient", amb >= 7, "canary: expected >= 7 ambient calls, got %d" % amb, sample={"canary_ambient_calls": amb})
+    rep.ob("C10.ctl", "ambient", amb >= 8, "canary: expected >= 8 ambient calls (clock x2, env, pid, fs, address x2, random hasher), got %d" % amb, sample={"canary_ambient_calls": amb})
     rep.ob("C10.ctl", "statics", len([s for s in C.statics if not s["nested"]]) >= 4,
            "canary: expected >= 4 statics, got %d" % len(C.statics), sample={"canary_statics": [s["id"] for s in C.statics]})
 
